@@ -30,6 +30,9 @@ store/smt.go, and `storeProofTree` on the two prefixes `facts` reads off store/s
 * `fixed_complete`       the proof `GetMerkleProof` produces verifies for the true statement about its key
 * `store_complete`       …also at store level: the tree `NewReadOnly(v)` serves proofs from is the committed one
 * `fixed_never_crashes`  no crash and no hang outcome
+* KNOWN FINDING (last section): `sibling_pair_resplit_accepted`, `not_sound_with_unframed_hash_even_with_fixed_value_lengths`
+  — the code is not sound with its unframed node hash; `fixed_sound_partial` is what does hold of the real hash (trees
+  without a re-splittable node), `empty16_not_resplittable` / `pairTree_is_resplittable` show both regions are inhabited
 * `fixed_rejects_witnesses`, `strict_rejects_resplit`  the corpus scenarios below are rejected
 * the hypothesis `H4Inj` of `fixed_sound` is load-bearing and stays explicit: `resplit_forgery_accepted`,
   `not_sound_with_unframed_hash` (pre-value-check model, real unframed node hash, [`C16:forged-proof-accepted-as-nonmembership`]),
@@ -172,7 +175,10 @@ theorem fixed_rejects_witnesses :
 
 /-- **The verifier is sound** — for every key length, tree, key, value and EVERY proof (honest, for another key,
 truncated, re-ordered, bit-flipped, malformed): an accepted statement is true. The only hypothesis beyond canonical form
-is the hash idealisation, stated explicitly: `H4Inj H4`, the node hash is injective on its 4-tuple. -/
+is the hash idealisation, stated explicitly: `H4Inj H4`, the node hash is injective on its 4-tuple. NOTE: `H4Inj` is FALSE
+for the node hash the code uses (`h4 H`, unframed concatenation), so this theorem is about adversaries that cannot re-split a
+node's hash input; the real code is NOT sound (known finding, last section of this file; `fixed_sound_partial` is the
+statement that holds of the real hash). -/
 theorem fixed_sound (strict : Bool) (H : Bytes → Bytes) {H4 : Bytes → Bytes → Bytes → Bytes → Bytes} (hH : H4Inj H4)
     {n : Nat} (hn : 0 < n) : Sound (verifyFixed strict H H4 n) H H4 n := by
   intro t S userKey value membership proof hrep hs hacc
@@ -246,6 +252,13 @@ or the 20-byte value of one of the two reserved leaves), i.e. the verifier that 
 the check from store/smt.go breaks this obligation (and the corpus `resplit-key-value-boundary` supplies the forged proof). -/
 theorem source_checks_value_length : Gen.SmtFacts.verifyProofChecksValueLength = true := by decide
 
+/-- **Tie to the source.** `validNodeValue` lets a value be hash-sized, or 20 bytes for EXACTLY the two reserved leaf keys
+(byte equality with `minKey` / `maxKey`, read off store/smt.go statement by statement) — the rule `valueLenOk` of the model.
+A looser test (e.g. a prefix comparison, which every all-zero / all-one key of any length passes) lets an inner node such as
+"0" carry a 20-byte value and re-opens the re-split forgery; it breaks this obligation, and the corpus `length-resplit`
+supplies the forged proof. -/
+theorem source_value_rule_exact : Gen.SmtFacts.validNodeValueExactReservedKeys = true := by decide
+
 /-- 24-bit keys, state {0x400103 ↦ [9]}: the honest membership proof of the key, with the boundary of `proof[0]` moved one
 byte to the LEFT (`Key' = [0x40,0x01,0x03]` — the perfectly well-formed 12-bit key `0100 0000 0001` — and
 `Value' = [0x06] ‖ value`), hashes to the same root and is accepted as a proof that the key is ABSENT.
@@ -305,5 +318,137 @@ theorem fixed_lengths_do_not_make_concatenation_injective :
     a ≠ b ∧ a.1 ++ a.2.1 ++ a.2.2.1 ++ a.2.2.2 = b.1 ++ b.2.1 ++ b.2.2.1 ++ b.2.2.2
     ∧ validNodeKey 160 a.1 = true ∧ validNodeKey 160 a.2.2.1 = true
     ∧ validNodeKey 160 b.1 = true ∧ validNodeKey 160 b.2.2.1 = true := by decide
+
+/-! ## KNOWN FINDING — the verifier that exists is NOT sound with the hash the code uses
+
+`H4Inj` is FALSE for the real node hash `h4 H = H(lk ‖ lv ‖ rk ‖ rv)` whatever `H` is (the concatenation forgets where
+the four fields end). `fixed_sound` therefore says: the verifier is sound against every adversary that cannot find a second
+reading of a node's hash input — it does NOT say that the code is sound, and it is not: with fixed 32-byte values the
+boundary of ONE node cannot move any more (`resplit_one_node_impossible`, repaired in 0bba88f), but shifting BOTH
+boundaries of a sibling pair — `lk' = (lk‖lv)[:|lk|+d]`, `lv'` the next 32 bytes, `rk'` the next `|rk|-d` bytes, `rv'` the rest —
+keeps values hash-sized and can leave both keys well formed. Presented as `[proof[0], sibling] ++ honest tail` such a pair
+reaches the committed root and is accepted as a NON-membership proof for present keys. Closing it needs length-framed node
+hashing (a change of every state root), not a verifier patch: recorded in known_findings.json as
+`C16:forged-proof-accepted-as-nonmembership:sibling-pair-resplit` and reproduced on the real code by the corpus
+`harness/c16/pairresplit.go` on every run. -/
+
+/-- a toy hash with a 32-byte output (the first 32 bytes of the input, zero padded); the forged hash inputs below are
+byte-IDENTICAL to the honest ones, so nothing here depends on its collisions -/
+def padH (b : Bytes) : Bytes := (b ++ List.replicate 32 0).take 32
+
+/-- 16-bit keys, state {0x4000 ↦ A…A, 0xFF80 ↦ B…B} (32-byte values) -/
+def pairTree : Trie :=
+  insert (keyOfBytes 16 (padH [0xFF, 0x80])) (padH (List.replicate 32 0xBB))
+    (insert (keyOfBytes 16 (padH [0x40, 0x00])) (padH (List.replicate 32 0xAA)) (empty 16))
+
+/-- the root's children `lk = "0"`, `rk = "111111111"` re-split by one byte: `lk' = [0,0,0]` (nine zero bits),
+`rk' = [1,0]` (the key "1"), both values still 32 bytes -/
+def pairForged : List PNode :=
+  match pairTree with
+  | .node _ l r =>
+    let stream := encodeKey l.key ++ l.value (h4 padH) ++ (encodeKey r.key ++ r.value (h4 padH))
+    [⟨stream.take 3, (stream.drop 3).take 32, 0⟩, ⟨(stream.drop 35).take 2, stream.drop 37, 1⟩]
+  | .leaf _ _ => []
+
+/-- **The model of the CURRENT verifier (strict value lengths, real unframed node hash) accepts a forged non-membership
+proof for a present key**: the two-node proof above hashes to the committed root (same byte stream), both keys are well
+formed, both values are 32 bytes, and it is accepted as "0x4000 is absent" although 0x4000 is in the state. -/
+theorem sibling_pair_resplit_accepted :
+    verifyFixed true padH (h4 padH) 16 [0x40, 0x00] [] false (pairTree.value (h4 padH)) pairForged = .accept
+    ∧ (keyOfBytes 16 (padH [0x40, 0x00]), padH (List.replicate 32 0xAA)) ∈ pairTree.toList
+    ∧ pairForged.all (fun p => p.value.length == 32) = true := by decide +kernel
+
+theorem not_sound_with_unframed_hash_even_with_fixed_value_lengths :
+    ¬ Sound (verifyFixed true padH (h4 padH) 16) padH (h4 padH) 16 := by
+  intro h
+  let ops : List Op := [.set (keyOfBytes 16 (padH [0x40, 0x00])) (padH (List.replicate 32 0xAA)),
+    .set (keyOfBytes 16 (padH [0xFF, 0x80])) (padH (List.replicate 32 0xBB))]
+  have hv : ∀ op ∈ ops, op.Valid 16 := by
+    intro op hop
+    simp only [ops, List.mem_cons, List.not_mem_nil, or_false] at hop
+    rcases hop with rfl | rfl <;> exact keyOfBytes_length 16 _
+  have hr := rep_run (n := 16) (by decide) ops (rep_empty (by decide)) (initMap_hasSentinels (by decide)) hv
+  have ht : (empty 16).run ops = pairTree := rfl
+  rw [ht] at hr
+  have := h pairTree _ [0x40, 0x00] [] false pairForged hr.1 hr.2 sibling_pair_resplit_accepted.1
+  have hS : ((initMap 16).run ops) (keyOfBytes 16 (padH [0x40, 0x00])) = some (padH (List.replicate 32 0xAA)) := by
+    decide +kernel
+  simp only [hS] at this
+  cases this
+
+/-- **What IS true of the code's hash** (`fixed_sound_partial`): for every tree that has no re-splittable node
+(`NoResplittableNode`: no inner node's hash input `lk ‖ lv ‖ rk ‖ rv` has a second reading as well-formed key / 32-or-20-byte
+value / well-formed key / 32-or-20-byte value — a decidable property of the tree alone), the strict verifier with the REAL
+unframed node hash `h4 H` is sound against every proof. Hypotheses on `H`: 32-byte output, and no second preimage of the
+hash inputs of the tree's own nodes (a fixed-length hash cannot be injective outright). The known finding is exactly the
+complement: trees with a re-splittable node (`pairTree` is one). -/
+theorem fixed_sound_partial (H : Bytes → Bytes) (hlen : ∀ x, (H x).length = 32)
+    {n : Nat} (hn : 0 < n) {t : Trie} {S : KMap} (h : t.Rep n S) (hs : S.HasSentinels n)
+    (hinj : ∀ g a b, Sub t (Trie.node g a b) → ∀ x,
+      H (encodeKey a.key ++ a.value (h4 H) ++ (encodeKey b.key ++ b.value (h4 H))) = H x →
+      encodeKey a.key ++ a.value (h4 H) ++ (encodeKey b.key ++ b.value (h4 H)) = x)
+    (hno : NoResplittableNode n (h4 H) t)
+    (userKey value : Bytes) (membership : Bool) (proof : List PNode)
+    (hacc : verifyFixed true H (h4 H) n userKey value membership (t.value (h4 H)) proof = .accept) :
+    if membership then S (keyOfBytes n (H userKey)) = some (H value) else S (keyOfBytes n (H userKey)) = none :=
+  verifyFixed_sound_partial H hlen hn h hs hinj hno userKey value membership proof hacc
+
+/-- non-vacuity of `fixed_sound_partial`: the tree of the empty state (16-bit keys) has no re-splittable node, for any hash -/
+theorem empty16_not_resplittable (H4 : Bytes → Bytes → Bytes → Bytes → Bytes) : NoResplittableNode 16 H4 (empty 16) := by
+  intro g a b hsub x y z w hok he
+  rcases sub_empty hsub with e | e | e
+  · simp only [empty, Trie.node.injEq] at e
+    obtain ⟨_, rfl, rfl⟩ := e
+    obtain ⟨hx, hz, hy, hw⟩ := hok
+    have lx := validNodeKey_length hx
+    have lz := validNodeKey_length hz
+    have hlen := congrArg List.length he
+    simp only [Trie.key, Trie.value, List.length_append] at hlen
+    have h46 : (encodeKey (minKey 16)).length + minVal.length + ((encodeKey (maxKey 16)).length + maxVal.length) = 46 := by decide
+    rw [h46] at hlen
+    obtain ⟨cx, cy, cz, cw⟩ := cut4 he
+    have hy20 : y.length = 20 := by omega
+    have hw20 : w.length = 20 := by omega
+    have hxz : x.length = 2 ∨ x.length = 3 ∨ x.length = 4 := by omega
+    simp only [Trie.key, Trie.value] at cx cy cz cw ⊢
+    rcases hxz with e | e | e
+    · exfalso
+      have ez : z.length = 4 := by omega
+      rw [e, hy20, ez] at cz
+      rw [cz] at hz
+      revert hz; decide
+    · have ez : z.length = 3 := by omega
+      rw [e] at cx; rw [e, hy20] at cy; rw [e, hy20, ez] at cz cw
+      rw [cx, cy, cz, cw]
+      decide
+    · exfalso
+      rw [e] at cx
+      rw [cx] at hx
+      revert hx; decide
+  · cases e
+  · cases e
+/-- the excluded region is not empty: the root of `pairTree` is re-splittable -/
+theorem pairTree_is_resplittable : ¬ NoResplittableNode 16 (h4 padH) pairTree := by
+  intro h
+  have hnode : ∃ l r, pairTree = Trie.node [] l r ∧
+      (encodeKey l.key ++ l.value (h4 padH) ++ (encodeKey r.key ++ r.value (h4 padH))).take 3 ≠ encodeKey l.key := by
+    refine ⟨_, _, rfl, ?_⟩
+    decide +kernel
+  obtain ⟨l, r, ht, hne⟩ := hnode
+  have hsub : Sub pairTree (Trie.node [] l r) := ht ▸ Sub.refl
+  let stream := encodeKey l.key ++ l.value (h4 padH) ++ (encodeKey r.key ++ r.value (h4 padH))
+  have hcut : stream = stream.take 3 ++ (stream.drop 3).take 32 ++ ((stream.drop 35).take 2 ++ stream.drop 37) := by
+    have e1 : stream.drop 35 = (stream.drop 3).drop 32 := by rw [List.drop_drop]
+    have e2 : stream.drop 37 = (stream.drop 35).drop 2 := by rw [List.drop_drop]
+    rw [e2, List.take_append_drop, e1, List.append_assoc, List.take_append_drop, List.take_append_drop]
+  have hok : TupleOk 16 (stream.take 3) ((stream.drop 3).take 32) ((stream.drop 35).take 2) (stream.drop 37) := by
+    have : pairTree = Trie.node [] l r := ht
+    subst_vars
+    simp only [stream]
+    injection ht with _ hl hr
+    subst hl hr
+    unfold TupleOk
+    decide +kernel
+  exact hne (h [] l r hsub _ _ _ _ hok hcut).1.symm
 
 end Canopy.Smt
